@@ -50,7 +50,10 @@ TRequest ==
   /\ (r.out = "some") = r.schnorr_holds                    \* a blind-signable value iff the request proof verifies
   /\ r.tamper = "none" => r.out = "some"
   /\ r.tamper # "none" => r.out = "none"
-TNext == TPSig \/ TRequest
+(* a blind-signable value exists only as the result of a verifying proof: the proof-gated types cannot be decoded from *)
+(* bytes; those documented as one-shot cannot be cloned                                                              *)
+TCapability == IsEv("capability") /\ ~r.deserialize /\ (r.clone_forbidden => ~r.clone)
+TNext == TPSig \/ TRequest \/ TCapability
 TSpec == l = 1 /\ [][TNext]_l
 Accepted ==
   LET n == TLCGet("stats").diameter - 1 IN
